@@ -191,8 +191,12 @@ def ord1(ctx, rule="ORD-1"):
     ctx.check(len(pk) == 1 and len(ins) == 2, rule, "both inserts are keyed by the primary-key vector", "%d inserts" % len(ins),
               "Insert::exec has %d keyed inserts and %d primary_key_indices calls (expected 2 and 1)" % (len(ins), len(pk)), f.loc(), fn=f.name)
     # every key-building closure indexes with the captured key indices
-    kc = [c for c in f.closures if any((t.get("callee") or "") == "std::ops::Index::index" for b, t in c.calls())]
-    ctx.check(len(kc) >= 3, rule, "key vectors are built by indexing with the key indices", "%d closures" % len(kc), "expected three key-building closures in Insert::exec, found %d" % len(kc), f.loc(), fn=f.name)
+    # counted by creation site: a shared `key_values(indices, row)` helper is inlined at each use, one closure body, several sites
+    def _indexes(c):
+        return any((t.get("callee") or "") == "std::ops::Index::index" for bb, t in c.calls()) or \
+            any(bl["term"]["t"] == "assert" and bl["term"].get("msg") == "BoundsCheck" for bl in c.blocks if not bl["cleanup"])
+    kc = [(b, c) for b, c in closure_sites(prog, f) if _indexes(c)]
+    ctx.check(len(kc) >= 3, rule, "key vectors are built by indexing with the key indices", "%d closure sites" % len(kc), "expected three key-building closures in Insert::exec, found %d" % len(kc), f.loc(), fn=f.name)
 
 
 # --------------------------------------------------------------------------- C08
